@@ -4,10 +4,10 @@ import time
 from framework import coqrun
 from framework.checklib import CorrResult
 from harness import searchcorr as sc
-from translator import t1_operators, t3_search
+from translator import t1_operators, t3_search, t17_search_enc
 
 ID = 'C06'
-TRANSLATORS = [t1_operators.translate, t3_search.translate]
+TRANSLATORS = [t1_operators.translate, t3_search.translate, t17_search_enc.translate]
 PROPERTY_FILE = 'Properties/C06.v'
 THEOREMS = ['C06_tt_to_gate_type_denotes', 'C06_tt_to_gate_type_injective', 'C06_operation_tables',
             'C06_operation_tables_operator', 'C06_operation_decodes_to_its_type', 'C06_bases_duplicate_free',
@@ -15,15 +15,30 @@ THEOREMS = ['C06_tt_to_gate_type_denotes', 'C06_tt_to_gate_type_injective', 'C06
             'C06_exactly_one_sound', 'C06_exactly_one_complete',
             'C06_soundness', 'C06_completeness', 'C06_soundness_typed', 'C06_completeness_typed',
             'C06_find_circuit_returns_valid', 'C06_no_solution_iff_none_exists', 'C06_find_circuit_total',
-            'C06_solver_hypotheses_satisfiable', 'C06_validb_decides']
+            'C06_solver_hypotheses_satisfiable', 'C06_validb_decides', 'C06_encoder_regenerated']
 PARTIAL = {}
 LEVEL_TEXT = ('soundness and completeness of the CNF encoding (every clause family, fix_gate, forbid_wire, '
               'need_normalized, don\'t-cares) and of the decoder are proved for all input/output counts, gate '
               'budgets, bases, constraint lists and don\'t-care patterns; find_circuit returns a circuit of the '
               'class and reports NoSolutionError iff the class is empty for every sound and complete solver; the '
-              'Operation/Basis/_tt_to_gate_type tables are regenerated from the source and re-proved; the encoder '
-              'and decoder models are tied to the code clause-for-clause / circuit-for-circuit by correspondence')
-LEVEL_NOTE = ('Coq kernel + vm_compute; translators T1, T3; correspondence harness and pysat shim; the SAT solver is a '
+              'Operation/Basis/_tt_to_gate_type tables are regenerated from the source and re-proved; the ENCODER '
+              '(constructor, the four variable-name helpers, _is_dont_cares_input, _add_exactly_one_of, '
+              '_init_default_cnf_formula with all seven clause families, fix_gate, forbid_wire, get_cnf) and the '
+              'DECODER _get_circuit_by_model are regenerated statement by statement from the source on every run and '
+              'proved EQUAL to the hand model (clause list in order, flags, error raised; the decoded Circuit on every '
+              'model list a solver can return: C06_encoder_regenerated); encoder and decoder models are also tied to '
+              'the code clause-for-clause / circuit-for-circuit by correspondence')
+LEVEL_NOTE = ('Coq kernel + vm_compute; translators T1, T3, T17 (T17: the encoder of CircuitFinderSat over the fixed '
+              'prelude Model/SearchPy.v - ints as naturals, the IDPool as the structured variables of Model/Search.v by '
+              'the naming scheme the harness inverts, CNF() as its clause list, a FunctionModel as (input_size, '
+              'output_size, table); side conditions of the equality: the model truth table has 2^n cells per row and '
+              'output_size rows; the basis resolution and the order of the forbidden-operation set are parameters of '
+              'the regenerated constructor; the decoder equality holds for model lists that mention every predecessor '
+              'variable, set no output variable at an input gate and select a pair for every gate - outside them the '
+              'hand model answers before a circuit is built while the source fails inside Circuit.add_gate, compared by '
+              'correspondence only; the Circuit API under the decoder is the hand model of C02; find_circuit stays '
+              'hand-modelled); '
+              'correspondence harness and pysat shim; the SAT solver is a '
               'hypothesis (sound and complete), so is the time limit path (same answer or SolverTimeOutError, exercised '
               'once per run); model is of the code repaired by fixes/D14.patch; "two-input gate reading inputs or '
               'earlier gates" is read as two DISTINCT predecessors a < b (the encoding has no variable for a = b); a '
@@ -33,7 +48,8 @@ TECHNIQUE = ('Coq proof: the CNF over structured variables is characterised fami
              'induction on the gate index (x-variables equal the decoded circuit\'s values on every row that is not '
              'an all-don\'t-care row), completeness by reading the assignment off the circuit; exactly-one lemmas for '
              'the pairwise encoding; transport to gate types through the regenerated _tt_to_gate_type table; model '
-             'tied to /repo by regenerating the tables (T3) and by clause-for-clause comparison of get_cnf() with '
+             'tied to /repo by regenerating the tables (T3) and the encoder (T17: loops as folds over the clause list, '
+             'equality with the hand model by generic fold lemmas instantiated by unification) and by clause-for-clause comparison of get_cnf() with '
              'encode (IDPool inverted) and of _get_circuit_by_model with decode + build_circuit; direct oracle: '
              'brute-force enumeration of the class')
 TRUSTED = ['section hypothesis H-solver: the SAT solver returns a satisfying assignment or reports unsatisfiability '
